@@ -77,7 +77,7 @@ META = {
                      'everything with the same and a fresh generator)'),
     'C10-a': dict(
         breaks='C10', file='adsg_core/optimization/assign_enc/lazy/imputation/first.py (LazyFirstImputer cache key)',
-        change='the first-imputer's "first valid matrix" cache is no longer keyed by the existence pattern',
+        change='the "first valid matrix" cache of the first-imputer is no longer keyed by the existence pattern',
         needs='one lazy encoder queried for several existence patterns: the matrix cached for the first pattern is '
               'returned (invalid) for the others',
         strengthened=None),
@@ -142,6 +142,83 @@ META = {
         needs='nested supplementary choices whose mappings are registered child-first: the child is skipped because it '
               'is not active yet and never revisited ("Resolved SupDSG is not final")',
         strengthened='C20 registers mappings in shuffled order (60 % of the cases)'),
+    # ---- second round (authors were told not to touch the first-round code) ----
+    'C02-b': dict(
+        breaks='C02', file='adsg_core/graph/traversal.py (get_confirmed_edges_for_node, walked-hit propagation)',
+        change='`_walked_hit.setdefault(node, hit_nodes)` drops the hits of later child branches',
+        needs='a "double diamond" below one option, a choice below the second re-joined branch, another option entering '
+              'at the intermediate node, and the option with the double diamond traversed first (shared cache)',
+        strengthened='NEUTRALISED by FX-32 (get_confirmed_edges_for_node now caches only the requested node): on the '
+                     'current /repo HEAD the change no longer breaks its own demonstration (tools/demo_on_head.sh), so '
+                     'it is kept for the record only'),
+    'C03-b': dict(
+        breaks='C03', file='adsg_core/optimization/hierarchy/complete.py (_find_correct_opt_idx)',
+        change='`i_comb_possible = ic_set` aliases a cached set that the following `&=` then shrinks in place',
+        needs='complete encoder; first scenario is a merged multi-choice scenario with invalid raw combinations '
+              '(ordering / permutation constraint); nothing masked yet; a history in which a vector with an invalid '
+              'first-scenario part is decoded before another vector sharing the corrected combination: canonical '
+              'vectors stop being fixed points or raise "Could not find unique option-index combination"',
+        strengthened='C03 gained the late pass: after the sweep every corrected vector is decoded again, in shuffled '
+                     'order, and must still be a fixed point with the same architecture (C01, C04, C05, C13 caught it '
+                     'from the start)'),
+    'C06-b': dict(
+        breaks='C06', file='adsg_core/graph/incompatibility.py (get_mod_nodes_remove_incompatibilities)',
+        change='before raising, only the confirmed DERIVING nodes are taken out of the removal set, not all confirmed nodes',
+        needs='a necessary conflict through a still-open choice whose origin D is confirmed, the selected node hanging '
+              'under D, and a particular order of choices at graph level: the instance is reported feasible and final '
+              'without the selected option',
+        strengthened=None),
+    'C07-b': dict(
+        breaks='C07', file='adsg_core/optimization/graph_processor.py (get_all_discrete_x)',
+        change='active continuous variables get their lower bound as placeholder in an int array whose inactive '
+               'sentinel is -1',
+        needs='a continuous design-variable node with lower bound in (-2, -1]: the enumeration reports it inactive, '
+              'both decode paths active',
+        strengthened='continuous DV bounds now drawn from a wider set incl. [-1, 1], [-1.5, 0.5], [-3, -1], [0.5, 2]'),
+    'C08-b': dict(
+        breaks='C08', file='adsg_core/graph/traversal.py (get_unconnected_connectors)',
+        change='the grouping-node degree is refreshed when the loop reaches the grouping node instead of before the '
+               'group is first judged',
+        needs='a grouping node with a conditional member, sibling graphs with different member sets alive together, a '
+              'degree-sensitive feasibility verdict (connection choice with nothing on the other side), and the OTHER '
+              'graph queried last: `feasible` of an existing graph flips; a full observation in a fixed order repairs '
+              'the shared state before the deciding query',
+        strengthened='Registry.reobserve: pairwise probe (query Y.feasible, then X.feasible, for every ordered pair), '
+                     'rotating observation order, a known raw-attribute diff no longer ends the case; generator class '
+                     '"whole side under conditional nodes"; corpus/c08_group_conditional_member_no_target.json'),
+    'C10-b': dict(
+        breaks='C10', file='adsg_core/optimization/assign_enc/enumerating/recursive.py (_encode_matrix)',
+        change='the inactive-key prefix is cut at the FIRST zero digit of the last index instead of the last one',
+        needs='a pattern whose number of matrices minus one has two zero digits separated by a non-zero digit in base '
+              'n_divide (11 matrices for base 2): distinct vectors collapse onto one corrected vector',
+        strengthened=None),
+    'C11-b': dict(
+        breaks='C11', file='adsg_core/optimization/assign_enc/matrix.py (NodeExistence.get_effective_settings)',
+        change='excluded pairs are re-indexed on the source side only',
+        needs='an exclusion edge (S, T_k), an earlier target that is absent in some scenario: the exclusion lands on '
+              'the wrong target (or IndexError)',
+        strengthened=None),
+    'C13-b': dict(
+        breaks='C13', file='adsg_core/optimization/hierarchy/complete.py (_reduced_selection_choice_scenarios)',
+        change='"all constrained choices permanent" is computed from the first constrained choice only',
+        needs='UNORDERED_NOREPL over a permanent first choice and a conditionally active later one, complete encoder: '
+              'equal indices are offered / NoOptionError / duplicate architectures',
+        strengthened=None),
+    'C16-b': dict(
+        breaks='C16', file='adsg_core/graph/adsg.py (set_des_var_value) + graph_processor.py (get_graph)',
+        change='set_des_var_value returns "the value set" but the variable was reused for the linked followers; '
+               'get_graph reports that return value',
+        needs='LINKED continuous design-variable nodes with different bounds, decoded with create=True: the corrected '
+              'vector reports the follower\'s value for the leader',
+        strengthened=None),
+    'C18-b': dict(
+        breaks='C18', file='adsg_core/graph/adsg_basic.py (_choice_sort_key)',
+        change='the tie-breaker of choices with equal ids uses the option nodes twice instead of origin > options',
+        needs='three or more selection choices with the same decision id and identically NAMED option nodes that '
+              'differ only in their originating node, all active together: their order (and so the design vector) '
+              'follows memory addresses / hash seed',
+        strengthened='generator class "replica" (same sub-architecture instantiated k times; spec nodes may carry a '
+                     'repeated display label) in C18 and in the history checks'),
 }
 
 
